@@ -68,6 +68,19 @@ def corpus(env, rng, which):
         if "root-dir-stale-volume" in which:
             ops += ["closedir $r", "closevol $v", "openroot $v -> $stale", "hasopen", "closedir $stale", "openroot #4242 -> $never", "closedir $never"]
         env.add_script("corpus%d" % j, path, (1, 4, 4), ops, 5000, (), meta)
+    if "maxsize" in which:
+        # a file 256 bytes short of the 4 GiB - 1 limit (sparse: 65536 clusters of 64 KiB, all-zero data)
+        import fatimg
+        img = fatimg.Image()
+        v = fatimg.Vol(True, lba=1, spc=128, nclusters=70000, nfats=1, info="unknown")
+        node = v.add_file(v.root, "BIG4G.BIN", b"", nclusters=65536)
+        b, o = node.slot
+        v.blk(b)[o + 28:o + 32] = (0xFFFFFF00).to_bytes(4, "little")
+        img.add(0, v)
+        path, dev = env.new_image(img, "maxsize")
+        meta = dict(geo="f32_4g", files={}, dirs={}, fat32=True, spc=128, N=v.N, slot=0, dev0=dev)
+        ops = ["openvol 0 -> $v", "openroot $v -> $r", "open $r %s RWA -> $b" % hx("BIG4G.BIN"), "write $b 512 9", "len $b", "off $b", "close $b"]
+        env.add_script("corpus-maxsize", path, (1, 4, 4), ops, 5000, (), meta)
 
 def grow_scripts(env, rng, count, dirty=0, big=False):
     """directed: directories whose clusters are exactly full (or multi-cluster), so that a create has to grow them
@@ -189,17 +202,28 @@ def check_C01(run, replay=None):
     prof = fsgen.profile(weights=dict(write=14, read=12, seek=10, open=8, close=4, flush=3, query=4, io=4, delete=2, mkdir=1, bad=2, remount=1))
     F.std_scenarios(env, rng, n, prof, nops=(25, 70))
     F.std_scenarios(env, rng, n // 6, prof, nops=(25, 70), img_kw=dict(second_partition=True), limits=(2, 4, 4))
+    corpus(env, rng, {"maxsize"})
     env.run_all()
     bad = 0
     for sc in env.scripts:
         tr = O.Trace(sc)
-        probs, _ = O.run_spec(tr, sc["meta"]["dev0"], sc["meta"]["slot"])
-        probs = [p for p in probs]
+        if sc["name"].startswith("corpus-maxsize"):
+            # the near-4-GiB file is too large for the byte-array replay: judge the one clipped write directly
+            probs = []
+            for k, op in enumerate(tr.ops):
+                if op[0] == "write" and tr.ok(k):
+                    stt = tr.st[k].get(op[1])
+                    if stt and stt[0] != "err" and int(stt[1]) - 0xFFFFFF00 != int(op[2]):
+                        probs.append("KNOWN-maxsize op %d: write of %s bytes at offset %d reported success but stored only %d bytes (silent clip at the 4 GiB - 1 limit)" % (k, op[2], 0xFFFFFF00, int(stt[1]) - 0xFFFFFF00))
+        else:
+            probs, _ = O.run_spec(tr, sc["meta"]["dev0"], sc["meta"]["slot"])
         def known(p):
-            return None
+            return "maxsize" if p.startswith("KNOWN-maxsize") else None
         if probs and bad < 2:
             bad += report_oracle(run, env, sc, probs, "byte-array file model violated by the implementation", known)
     def orc(sc):
+        if sc["name"].startswith("corpus-maxsize"):
+            return []
         tr = O.Trace(sc)
         return O.run_spec(tr, sc["meta"]["dev0"], sc["meta"]["slot"])[0]
     common_tail(run, env, run.coverage.get("theorems", []), oracle=orc, what="byte-array file model violated by the implementation")
